@@ -419,12 +419,17 @@ class SSHChannel(Generic[AnyStr], SSHPacketHandler):
             self._recv_state = 'closed'
             self._loop.call_soon(self._cleanup, exc)
 
+    def _get_recv_window_threshold(self) -> float:
+        """Return the receive window size below which it is reopened"""
+
+        return self._init_recv_window / 2
+
     def _consume_recv_window(self, datalen: int) -> None:
         """Account for consumed data, reopening the receive window"""
 
         self._recv_window -= datalen
 
-        if self._recv_window < self._init_recv_window / 2:
+        if self._recv_window < self._get_recv_window_threshold():
             adjust = self._init_recv_window - self._recv_window
 
             self.logger.debug2('Sending window adjust of %d bytes, '
@@ -2294,6 +2299,13 @@ class SSHTunTapChannel(SSHForwardChannel[bytes]):
             data = data[4:]
 
         super()._accept_data(data, datatype)
+
+    def _get_recv_window_threshold(self) -> float:
+        """Keep the window large enough for a packet of maximum size"""
+
+        # The peer sends a packet only once all of it fits the window
+        return max(self._init_recv_window / 2,
+                   min(self._recv_pktsize, self._init_recv_window))
 
     def _get_send_size(self, buflen: int) -> int:
         """Only send whole packets, waiting for enough window if needed"""
